@@ -93,6 +93,9 @@ func txHash(height uint64, idx int) string {
 	return "Mt" + hex.EncodeToString(h[:])
 }
 
+// BumpTxCount takes the multisig's next transaction nonce (a transaction of the multisig made outside the bridge).
+func (c *Chain) BumpTxCount() uint64 { c.mu.Lock(); defer c.mu.Unlock(); c.TxCount++; return c.TxCount }
+
 // Mine appends n empty blocks.
 func (c *Chain) Mine(n int) {
 	c.mu.Lock()
